@@ -321,7 +321,12 @@ pub fn bar_forced(_args: &[String]) -> String {
         tried += 1;
         let got = term.contents();
         if got != m.screen() {
-            let clause = if variant <= 4 { "C04/C05 forced draws (finish*, abandon*, drop of an unfinished bar) paint the final state regardless of the limiter" }
+            // the final state is there, with remnants of an earlier frame around it: that is a redraw that does not erase (C01)
+            let want = m.screen();
+            let (wr, gr): (Vec<&str>, Vec<&str>) = (want.split('\n').collect(), got.split('\n').collect());
+            let residue = !want.is_empty() && gr.len() >= wr.len() && wr.iter().zip(gr.iter()).all(|(w, g)| g.starts_with(w));
+            let clause = if residue { "C01/C04 the forced draw paints the final state and leaves no remnant of an earlier frame" }
+                else if variant <= 4 { "C04/C05 forced draws (finish*, abandon*, drop of an unfinished bar) paint the final state regardless of the limiter" }
                 else { "C03/C05/C01 println and suspend are forced draws: the printed line and the latest frame are on screen regardless of the limiter" };
             return report(clause, &hist, &m.screen(), &got, "bar_forced");
         }
